@@ -45,13 +45,22 @@ BY = {c[0]: c for c in CATALOGUE}
 def emit(prop, header, body_fn, rows):
     """rows: (suffix, tier, unwind, extra_meta, fn_generic, bounds_fmt, desc)"""
     out = [header]
-    for (suffix, tier, unwind, extra, generic, bounds, desc) in rows:
+    for row in rows:
+        (suffix, tier, unwind, extra, generic, bounds, desc) = row[:7]
+        pre = row[7] if len(row) > 7 else None  # (name suffix, statement executed before the generic body)
         _, ty, inst, vb = BY[suffix]
         name = "%s_%s_%s" % (prop.lower(), generic, suffix)
+        if pre:
+            name += "_" + pre[0]
         out.append('// @h prop=%s tier=%s kind=proof %sinst="%s" bounds="%s" desc="%s"' % (
             prop, tier, (extra + " ") if extra else "", inst, bounds.format(v=vb), desc))
+        if tier == "thorough":
+            out.append('#[cfg(feature = "thorough")]')
         out.append("#[cfg_attr(kani, kani::proof, kani::unwind(%d))]" % unwind)
-        out.append("pub fn %s() {\n    %s::<%s>();\n}\n" % (name, generic, ty))
+        if pre:
+            out.append("pub fn %s() {\n    %s\n    %s::<%s>();\n}\n" % (name, pre[1], generic, ty))
+        else:
+            out.append("pub fn %s() {\n    %s::<%s>();\n}\n" % (name, generic, ty))
     return "\n".join(out)
 
 
